@@ -21,7 +21,7 @@ def phase_part(d, seed, n):
     connection is in - the timer that fires was armed (generation changed) while the connection was in this phase"""
     import re
     fin, fimpl, faux = [os.path.join(d, x) for x in ("conn_in.txt", "conn_impl.txt", "conn_aux.txt")]
-    q = C.run([C.HARNESS, "connstep", "-seed", str(seed), "-n", str(n), "-events", "30", "-in", fin, "-impl", fimpl, "-aux", faux], cwd=d, timeout=3600)
+    q = C.run([C.HARNESS, "connstep", "-seed", str(seed), "-n", str(n), "-events", "30", "-in", fin, "-impl", fimpl, "-aux", faux], cwd=d, timeout=C.engine_timeout())
     if q.returncode != 0:
         raise RuntimeError("connstep failed: " + (q.stdout or "")[-2000:])
     ins, impl, aux = [open(x).read().splitlines() for x in (fin, fimpl, faux)]
@@ -74,7 +74,7 @@ def check(pid, tier, seed):
     total, bad, shapes, samples, skipped = 0, [], set(), [], 0
     for s, n, dur in runs:
         out = os.path.join(d, "timer_out.txt")
-        q = C.run([C.HARNESS, "timerstress", "-seed", str(s), "-n", str(n), "-dur", str(dur), "-out", out], cwd=d, timeout=3600)
+        q = C.run([C.HARNESS, "timerstress", "-seed", str(s), "-n", str(n), "-dur", str(dur), "-out", out], cwd=d, timeout=C.engine_timeout())
         if q.returncode != 0:
             raise RuntimeError("timerstress failed: " + (q.stdout or "")[-2000:])
         for line in open(out):
